@@ -130,7 +130,7 @@ def parse_fn(header, body):
             continue
         if cur is None:
             continue
-        if line.startswith("StorageLive") or line.startswith("StorageDead") or line.startswith("nop") \
+        if line.startswith("StorageLive") or line.startswith("StorageDead") or line.startswith("nop") or line.startswith("ConstEvalCounter") \
                 or line.startswith("FakeRead") or line.startswith("PlaceMention") or line.startswith("AscribeUserType") \
                 or line.startswith("Retag") or line.startswith("Coverage"):
             continue
